@@ -124,7 +124,7 @@ class MH(ProposalBasedSampler):
         acc[0] = 1
 
         # initial adaptation params 
-        Na = int(0.1*N)                              # iterations to adapt
+        Na = max(int(0.1*N), 1)                            # iterations to adapt
         hat_acc = np.empty(int(np.floor(Ns/Na)))     # average acceptance rate of the chains
         lambd = self.scale
         star_acc = 0.234    # target acceptance rate RW
